@@ -39,3 +39,18 @@ func VerifConsts() map[string]uint64 {
 		"maxCacheSize":      defaultMaxCacheSize,
 	}
 }
+
+// VerifHasFile reports whether the cache directory holds a file for addr.
+// known=false if the mode lock cannot be taken right now (mode switch in progress).
+func VerifHasFile(c Cache, addr oid.Address) (has bool, known bool) {
+	cc := c.(*cache)
+	if !cc.modeMtx.TryRLock() {
+		return false, false
+	}
+	defer cc.modeMtx.RUnlock()
+	if cc.fsTree == nil {
+		return false, false
+	}
+	ok, err := cc.fsTree.Exists(addr)
+	return ok, err == nil
+}
